@@ -99,3 +99,38 @@ func TestKnown_Scoping(t *testing.T) {
 	}
 	_ = strings.TrimSpace
 }
+
+// K-C04-5: 65536 undeclared names used in one parameter list: the uint16 offset NumArgUses wraps
+func TestKnown_ArgUsesWrap(t *testing.T) {
+	known := ev.KnownFindings("C04")
+	const n = 65536
+	names := make([]string, n)
+	for i := range names {
+		names[i] = fmt.Sprintf("x%d", i)
+	}
+	last := names[n-1]
+	src := "function f(a=[" + strings.Join(names, ",") + "]){var " + last + "}"
+	ast, err := js.Parse(parse.NewInputString(src), js.Options{})
+	if err != nil {
+		t.Fatalf("program rejected: %v", err)
+	}
+	fn := ast.BlockStmt.List[0].(*js.FuncDecl)
+	var bodyVar *js.Var
+	for _, v := range fn.Body.Scope.Declared {
+		if string(v.Data) == last {
+			bodyVar = v
+		}
+	}
+	occ := fn.Params.List[0].Default.(*js.ArrayExpr).List[n-1].Value.(*js.Var)
+	for occ.Link != nil {
+		occ = occ.Link
+	}
+	if occ != bodyVar {
+		return // repaired
+	}
+	if _, listed := known["K-C04-5"]; listed {
+		ev.ReportKnown("C04", "K-C04-5", "function f(a=[x0,…,x65535]){var x65535}: x65535 in the default value shares the Var of the body's var (uint16 offset NumArgUses wraps)")
+	} else {
+		t.Errorf("K-C04-5: x65535 in the default value shares the Var of the body's var")
+	}
+}
